@@ -14,14 +14,22 @@ SPEC = {
     "level": "proof",
     "trusted_base": [
         "Coq 8.16.1 kernel + VM (vm_compute); no axioms (Print Assumptions: closed under the global context)",
-        "translator (/verif/translator, go/ast): Severity iota block, ParseSeverity and Severity.String switch tables -> Gen/Tables.v",
-        "correspondence: real pint binary (lint and ci) exit status vs Model.Severity on the severities of pint's own --json report",
-        "modelled not verified: the threshold loops of actionLint/actionCI and Summary.Report/CountBySeverity are hand-modelled; "
-        "urfave/cli flag parsing, os.Exit mapping of a returned error, JSON encoding are trusted",
+        "translator core.go (go/ast): Severity iota block, ParseSeverity and Severity.String switch tables -> Gen/Tables.v",
+        "translator ext_C05.go (go/ast of cmd/pint): default value of every cli flag of the root/lint/ci commands, every return statement of "
+        "actionLint/actionCI/actionSetup (nil or error, before or after checkRules), normalised shape of the two threshold decisions "
+        "(operator between the CountBySeverity key and the once-assigned parsed --fail-on value, accumulation, final test), exit code of main() -> Gen/C05.v; fails closed",
+        "correspondence: the real pint binary (lint and ci) on generated files/configs x flag settings x one injected fault per error return "
+        "(no path, missing path, bad/missing config, --workers 0, bad log level, unwritable --json/--checkstyle, not a git repository, unknown base branch, "
+        "github reporter without token) x pint ci from the base branch (spellings) / on a branch without changes x reporting flags "
+        "(--teamcity, --checkstyle, --require-owner, --show-duplicates): exact exit status, existence and completeness of the --json report vs Model/ExitFlow.v "
+        "evaluated on the severities of pint's own report",
+        "modelled not verified from Go source: the ORDER of the stages inside actionLint/actionCI (hand-written in Model/ExitFlow.v, validated by the fault runs and "
+        "constrained by the generated return tables), Summary.Report/CountBySeverity; urfave/cli flag parsing, the Go runtime's exit status 2 on panic, JSON encoding are trusted",
     ],
     "assumptions": [
         "the --json report lists every report of the Summary (json.go iterates Summary.Reports() unfiltered)",
-        "a non-nil error returned by the action becomes a non-zero exit status",
+        "the outcome of every stage that depends on the outside world (config loading, discovery, git, Prometheus generation, file creation, reporter submission) is an input of the model",
+        "lint_crashes / ci_crashes = false is the guard of the _partial flow theorems (known finding C05-require-owner-broken-rule-crash)",
     ],
 }
 
@@ -30,14 +38,21 @@ def run(ctx):
     return pv.standard(ctx, SPEC)
 
 MANIFEST = {
-    "text": "Theorems (Coq, no axioms): for every arrival stream of reports, the modelled exit decision of pint lint / pint ci "
-            "(Summary.Report duplicate suppression, CountBySeverity, threshold loop) is non-zero iff some reported problem has "
-            "severity >= --fail-on; --min-severity is irrelevant; below-threshold problems never fail; the severity tables "
-            "(regenerated from the Go AST every run) are strictly ordered info<warning<bug<fatal and round-trip. "
-            "The model is tied to the code by the translator (tables) and by running the real pint binary over generated "
-            "files/configs/flag settings and comparing its exit status with the model on pint's own --json severities.",
-    "note": "Coq 8.16.1 kernel+VM, no axioms; translator trusted for table extraction; actionLint/actionCI loops and Summary are "
-            "hand-modelled and validated by differential execution of the binary (not verified from Go source); cli flag parsing, "
-            "error->exit mapping and JSON encoding trusted.",
-    "technique": "Coq theorem over fold/assoc-list model + AST-generated severity tables + binary-level differential correspondence",
+    "text": "Theorems (Coq, no axioms). (1) For every arrival stream of reports the modelled exit decision of pint lint / pint ci (Summary.Report duplicate "
+            "suppression, CountBySeverity, threshold loop) is non-zero iff some reported problem has severity >= --fail-on; --min-severity is irrelevant; the severity "
+            "tables (regenerated from the Go AST every run) are strictly ordered info<warning<bug<fatal and round-trip. (2) Over a model of the whole control flow of "
+            "actionSetup/actionLint/actionCI (every return statement a stage; flag defaults, ParseSeverity, the base-branch test, the thresholds and main()'s exit code "
+            "computed, outcomes of the outside world as inputs): a failing stage exits non-zero without submitting reports; an invalid --min-severity/--fail-on is detected "
+            "after linting (lint: no report file; ci: empty report file); pint ci run from the base branch exits 0 without linting (the only exit-0 path that ignores the "
+            "reports); otherwise exit != 0 iff a report reaches --fail-on and the reports were submitted; a branch producing no report passes for every valid --fail-on. "
+            "The flow statements are proved with the guard 'verifyOwners does not crash' and REFUTED without it (witness = a genuine pint defect: --require-owner plus a rule "
+            "that failed to parse panics with exit status 2 even when nothing is reported). (3) Finite, over Gen/C05.v regenerated from cmd/pint: in actionLint/actionSetup only "
+            "the last return is nil, actionCI has exactly one more nil return placed before checkRules, both threshold decisions compare 'severity >= fail-on' with a "
+            "never-reassigned parsed value, main exits 1 on error, the flag defaults are fail-on=bug, min-severity=warning. Tied by the two translators and by running the real "
+            "binary (exact exit status + report existence/completeness) over generated scenarios, a 4x4 severity/fail-on grid incl. severities fixed in built-in checks, one "
+            "injected fault per error path, base-branch / no-change ci layouts and reporting flags.",
+    "note": "Coq 8.16.1 kernel+VM, no axioms; translators trusted for table extraction; stage order and Summary hand-modelled and validated by differential execution of the "
+            "binary (not verified from Go source); cli parsing, panic exit status, JSON encoding trusted. Open known finding C05-require-owner-broken-rule-crash "
+            "(candidate patch notes/candidate-fixes/C05-require-owner-broken-rule.patch).",
+    "technique": "Coq theorems over fold/assoc-list model + staged control-flow model + AST-generated severity/flag/exit-path tables + binary-level differential correspondence with fault injection",
 }
